@@ -87,8 +87,11 @@ func executeCompaction(db *DB) (compactionMetadata *proto.CompactionMetadata, er
 		return nil, err
 	}
 
+	writerClosed := false
 	defer func() {
-		err = errors.Join(err, writer.Close())
+		if !writerClosed {
+			err = errors.Join(err, writer.Close())
+		}
 	}()
 
 	var readers []sstables.SSTableReaderI
@@ -124,6 +127,14 @@ func executeCompaction(db *DB) (compactionMetadata *proto.CompactionMetadata, er
 		reduceFunc = scanReduceLatestWinsKeepTombstones
 	}
 	err = sstables.NewSSTableMerger(db.cmp).MergeCompact(iterators, writer, reduceFunc)
+	if err != nil {
+		return nil, err
+	}
+
+	// the merged table must be complete on disk before the compaction is flagged as successful below, a recovery would
+	// otherwise replace the inputs with a table that is still missing its buffered records and metadata
+	writerClosed = true
+	err = writer.Close()
 	if err != nil {
 		return nil, err
 	}
